@@ -59,27 +59,44 @@ def run_events(events, cfg, known, upto=None, collect=None, owners=None):
     w = World(cfg, known)
     w.owners = owners
     viol = None
+    signal = None          # first failure of an oracle the property does not own
     try:
         for i, ev in enumerate(events):
             if upto is not None and i > upto:
                 break
             try:
                 w.execute(ev)
+                continue
             except Violation as v:
                 viol = {'oracle': v.oracle, 'detail': v.detail, 'event': i,
                         'finding': v.finding}
-                viol = _owned_followup(w, viol, owners)
-                break
             except Exception as e:  # noqa
-                if classify_exception(e) == 'library':
-                    viol = {'oracle': '%s.%s.raised' % (ev['k'],
-                                                        ev.get('name', '')),
-                            'detail': 'unexpected %r\n%s' % (
-                                e, ''.join(traceback.format_exception(e))[-1500:]),
-                            'event': i, 'finding': None}
-                    viol = _owned_followup(w, viol, owners)
-                    break
-                raise
+                if classify_exception(e) != 'library':
+                    if signal is not None:
+                        break       # harness trouble after a resync: stop here
+                    raise
+                viol = {'oracle': '%s.%s.raised' % (ev['k'],
+                                                    ev.get('name', '')),
+                        'detail': 'unexpected %r\n%s' % (
+                            e, ''.join(traceback.format_exception(e))[-1500:]),
+                        'event': i, 'finding': None}
+            viol = _owned_followup(w, viol, owners)
+            if owners is None or owns(owners, viol['oracle']):
+                if signal is not None:
+                    viol['detail'] += ' [the run had continued after %s at ' \
+                        'event %d]' % (signal['oracle'], signal['event'])
+                break
+            # not this property's oracle: remember it, re-synchronise the
+            # models with the real tables and carry on with the schedule
+            if signal is None:
+                signal = viol
+            viol = None
+            try:
+                w.resync()
+            except Exception:  # noqa
+                break
+        if viol is None:
+            viol = signal
     finally:
         dig = w.digest()
         if collect is not None:
@@ -148,6 +165,7 @@ def run_seed(seed, profile, tier, known, scratch, owners=None, wal=None):
     gen = Gen(rng, cfg)
     events = []
     viol = None
+    signal = None
     t0 = time.time()
     try:
         for step in range(cfg['len']):
@@ -159,23 +177,40 @@ def run_seed(seed, profile, tier, known, scratch, owners=None, wal=None):
                 os.fsync(wal.fileno())
             try:
                 w.execute(ev)
+                continue
             except Violation as v:
                 viol = {'oracle': v.oracle, 'detail': v.detail,
                         'event': len(events) - 1, 'finding': v.finding}
-                viol = _owned_followup(w, viol, owners)
-                break
             except Exception as e:  # noqa
-                if classify_exception(e) == 'library':
-                    viol = {'oracle': '%s.%s.raised' % (ev['k'],
-                                                        ev.get('name', '')),
-                            'detail': 'unexpected %r\n%s' % (
-                                e, ''.join(traceback.format_exception(e))[-1500:]),
-                            'event': len(events) - 1, 'finding': None}
-                    viol = _owned_followup(w, viol, owners)
-                    break
-                raise HarnessError('seed %d event %d %r: %s' % (
-                    seed, len(events) - 1, ev,
-                    ''.join(traceback.format_exception(e))))
+                if classify_exception(e) != 'library':
+                    if signal is not None:
+                        break   # harness trouble after a resync: stop here
+                    raise HarnessError('seed %d event %d %r: %s' % (
+                        seed, len(events) - 1, ev,
+                        ''.join(traceback.format_exception(e))))
+                viol = {'oracle': '%s.%s.raised' % (ev['k'],
+                                                    ev.get('name', '')),
+                        'detail': 'unexpected %r\n%s' % (
+                            e, ''.join(traceback.format_exception(e))[-1500:]),
+                        'event': len(events) - 1, 'finding': None}
+            viol = _owned_followup(w, viol, owners)
+            if owners is None or owns(owners, viol['oracle']):
+                if signal is not None:
+                    viol['detail'] += ' [the run had continued after %s at ' \
+                        'event %d]' % (signal['oracle'], signal['event'])
+                break
+            # another property's oracle: remember the first one, take the
+            # real state as the new starting point, carry on (run_events
+            # does the same on replay)
+            if signal is None:
+                signal = viol
+            viol = None
+            try:
+                w.resync()
+            except Exception:  # noqa
+                break
+        if viol is None:
+            viol = signal
     finally:
         res = {'seed': seed, 'events': events, 'cfg': cfg, 'viol': viol,
                'digest': w.digest(), 'stats': w.stats, 'cases': w.cases,
